@@ -20,7 +20,10 @@ func buildC15(s Spec, mons ...vnet.Monitor) *Built {
 	cfg.TxPerBlock = []int{0, 1, 3, 8, 64}[r.Intn(5)]
 	// previous block timestamp: zero, aligned, unaligned, near the clock, ahead of the clock by up to hours
 	ep := uint64(cfg.Epoch)
-	switch r.Intn(7) {
+	switch r.Intn(8) {
+	case 7:
+		// previous block timestamps in the upper half of the uint64 range (further from the clock than an int64 can express)
+		cfg.GenesisTs = []uint64{1<<63 - 1000000, 1 << 63, 1<<63 + 3<<60, 1<<64 - 1 - uint64(time.Hour)}[r.Intn(4)]
 	case 0:
 		cfg.GenesisTs = 0
 	case 1:
@@ -146,6 +149,7 @@ func C15(r *ev.Run) {
 	r.Floor("proposals-with-several-txs", 2000)
 	r.Floor("primary-blocks-checked", 5000)
 	r.Floor("primary-handovers-checked", 2000)
+	r.Floor("proposals-after-huge-previous-timestamp", 200)
 	r.Floor("primary-headers-checked", 5000)
 	r.Floor("primary-preheaders-checked", 1000)
 	r.Floor("proposals-after-backup-role-in-same-height", 50)
